@@ -15,7 +15,9 @@ Record cfg := { c_p : porder; c_s : sorder; c_f : lfilter; c_cap : option nat }.
 (* c_cap = Some c: the broadcast channel keeps at most c pending frames per receiver; on overflow the
    oldest is dropped and the receiver sees Lagged, which the handlers swallow (`Err(_) => None`). *)
 
-Inductive actor := AP | AS (i : nat).
+(* AP: the stream's producer; AS i: subscriber i; AO: some OTHER stream's producer publishing one frame on the same
+   channel (the continuity channel is shared by all threads: thread_stream_events drops frames whose session_id differs) *)
+Inductive actor := AP | AS (i : nat) | AO.
 
 (* frame k carries seq k (C01: seqs of a stream are 0,1,2,… in emission order) *)
 Inductive pstep := Pub (k : nat) | Rec (k : nat).
@@ -26,7 +28,7 @@ Definition producer_prog (o : porder) (n : nat) : list pstep := rest o n 0.
 
 Record sub := {
   s_pc : nat;                       (* 0,1: the two attach operations; >= 2: attached, draining *)
-  s_live : option (list nat);       (* receiver queue (None: not subscribed yet) *)
+  s_live : option (list (option nat)); (* receiver queue (None: not subscribed yet); an entry None = a frame of another stream *)
   s_hist : option (list nat);       (* history snapshot *)
   s_out : list nat;                 (* seqs written to the SSE body so far *)
   s_lag : bool                      (* the receiver overflowed at least once *)
@@ -38,13 +40,13 @@ Record st := { g_prog : list pstep; g_hist : list nat; g_subs : list sub }.
 Definition init (c : cfg) (n m : nat) : st :=
   {| g_prog := producer_prog (c_p c) n; g_hist := []; g_subs := repeat fresh m |}.
 
-Definition push_live (cap : option nat) (k : nat) (q : list nat) : list nat * bool :=
+Definition push_live (cap : option nat) (k : option nat) (q : list (option nat)) : list (option nat) * bool :=
   match cap with
   | None => (q ++ [k], false)
   | Some c => if Nat.ltb (length q) c then (q ++ [k], false) else (tl q ++ [k], true)
   end.
 
-Definition deliver (cap : option nat) (k : nat) (s : sub) : sub :=
+Definition deliver (cap : option nat) (k : option nat) (s : sub) : sub :=
   match s_live s with
   | None => s
   | Some q => let '(q', lag) := push_live cap k q in
@@ -66,12 +68,15 @@ Definition do_subscribe (s : sub) : sub :=
   {| s_pc := S (s_pc s); s_live := Some []; s_hist := s_hist s; s_out := s_out s; s_lag := s_lag s |}.
 Definition do_snapshot (hist : list nat) (s : sub) : sub :=
   {| s_pc := S (s_pc s); s_live := s_live s; s_hist := Some hist; s_out := hist; s_lag := s_lag s |}.
+(* the frames of THIS stream in a receiver queue (`if event.session_id != thread_id { return None; }`) *)
+Definition own (q : list (option nat)) : list nat :=
+  flat_map (fun o => match o with Some k => [k] | None => [] end) q.
 (* past_stream.chain(live_stream): the history goes out first, then the filtered live frames *)
 Definition do_drain (f : lfilter) (s : sub) : sub :=
   match s_live s, s_hist s with
   | Some q, Some h =>
     {| s_pc := s_pc s; s_live := Some []; s_hist := s_hist s;
-       s_out := s_out s ++ filter (keep f (last_seq h)) q; s_lag := s_lag s |}
+       s_out := s_out s ++ filter (keep f (last_seq h)) (own q); s_lag := s_lag s |}
   | _, _ => s
   end.
 
@@ -95,11 +100,12 @@ Definition step (c : cfg) (s : st) (a : actor) : st :=
   match a with
   | AP => match g_prog s with
           | [] => s
-          | Pub k :: r => {| g_prog := r; g_hist := g_hist s; g_subs := map (deliver (c_cap c) k) (g_subs s) |}
+          | Pub k :: r => {| g_prog := r; g_hist := g_hist s; g_subs := map (deliver (c_cap c) (Some k)) (g_subs s) |}
           | Rec k :: r => {| g_prog := r; g_hist := g_hist s ++ [k]; g_subs := g_subs s |}
           end
   | AS i => {| g_prog := g_prog s; g_hist := g_hist s;
                g_subs := upd_nth i (sub_step c (g_hist s)) (g_subs s) |}
+  | AO => {| g_prog := g_prog s; g_hist := g_hist s; g_subs := map (deliver (c_cap c) None) (g_subs s) |}
   end.
 
 Definition run (c : cfg) (sched : list actor) (s : st) : st := fold_left (step c) sched s.
@@ -123,6 +129,9 @@ Definition mk (p : porder) (s : sorder) (f : lfilter) (cap : option nat) : cfg :
 Definition with_cap (c : cfg) (cap : option nat) : cfg := mk (c_p c) (c_s c) (c_f c) cap.
 (* the state after running schedule `sched` on a stream of n frames with m (potential) subscribers *)
 Definition final (c : cfg) (n m : nat) (sched : list actor) : st := run c sched (init c n m).
+(* number of foreign frames a schedule puts on the channel *)
+Fixpoint count_other (l : list actor) : nat :=
+  match l with [] => 0 | AO :: r => S (count_other r) | _ :: r => count_other r end.
 (* some receiver overflowed during the run (tokio: RecvError::Lagged, swallowed by the handlers) *)
 Definition any_lag (s : st) : bool := existsb s_lag (g_subs s).
 Definition NoLag (s : st) : Prop := any_lag s = false.
